@@ -14,6 +14,9 @@ CLAIMED = {
     "C02": ("loop-shape and dominance rules on SSA (rolling phi, prefix construction, exact adjacency guard)",
             "Static rule discharge over every path of header.VerifyRange: empty guard, in-order element walk, rolling trusted header, error returns carrying the verified prefix, exact i>0 adjacency guard, append only after both checks, single nil return at loop exit. Together these clauses are the statement; 'passed Verify' rests on C01.",
             "go/types+go/ssa; purity of header observers; C01 for the meaning of Verify"),
+    "C10": ("who-may-call on the store surface, linear bound proof at the GetRange call site (per phi edge), status-code table classification with assumption pruning, must-precede for deadlines, context provenance, result-shape rules",
+            "Decides the structural clauses behind 'bounded work and only true store data': store surface ⊆ {Get,Head,HasAt,GetRange} outside loops, 1 ≤ to−from ≤ 64 proven at the GetRange call on every path (this found and now guards the below-tail clamp defect), wrap-around guard, OK/NOT_FOUND/reset table incl. the client's mapping, deadlines and request-timeout context, responses are the marshalled elements of the store result in order. Does not decide the behaviour of the store implementation handed in.",
+            "go/types+go/ssa; header.Store methods honour their context; libp2p stream/serde library behaviour"),
     "C16": ("arithmetic-safety obligations (division, unsigned subtraction, conversion) discharged by a linear prover over guard facts + validated-parameter invariants; move-direction and lock-region rules",
             "Decides the 'never crash / wrap around' clause structurally: every division in the tail functions has a proven non-zero divisor, every unsigned subtraction is proven not to wrap, estimated heights are proven ≥ 1, the prune/sync direction guards and the tailMu serialisation are in place. Does not decide the numeric retention guarantee or run-time wedging.",
             "go/types+go/ssa; integers read as mathematical integers in guard facts; Parameters are not mutated after NewSyncer"),
